@@ -94,6 +94,28 @@ def install(root, graph, default_product=False):
     return s
 
 
+def set_up_in_env(stack, products):
+    """Make `products` [(name, version)] look set up to the command: SETUP_<NAME> and <NAME>_DIR as `setup` leaves them."""
+    for n, v in products:
+        os.environ["SETUP_" + n.upper()] = "%s %s -f %s -Z %s" % (n, v, FLAVOR, stack)
+        os.environ[n.upper() + "_DIR"] = os.path.join(stack, FLAVOR, n, v)
+
+
+def readonly_database(stack):
+    """Make the stack's ups_db look non-writable to eups in this (forked) process: for paths inside the stack
+    `utils.isDbWritable` answers False, as `os.access` does for a user without write permission (a root-run harness
+    cannot take the permission away); every other path (the user's data directory) is judged as before."""
+    U = common.eups_mod("utils")
+    orig = U.isDbWritable
+    prefix = os.path.realpath(stack) + os.sep
+
+    def is_db_writable(dbpath, create=False):
+        if (os.path.realpath(dbpath) + os.sep).startswith(prefix):
+            return False
+        return orig(dbpath, create)
+    U.isDbWritable = is_db_writable
+
+
 def point_env_at(root):
     os.environ["EUPS_PATH"] = os.path.join(root, "stack0")
     os.environ["EUPS_USERDATA"] = os.path.join(root, "userdataA")
@@ -126,7 +148,13 @@ def err_class(ex):
     if name == "TableFileNotFound":
         return "TableError"
     if name == "EupsException":
-        return "Refused" if "is required by product" in str(ex) else "Other(EupsException)"
+        if "is required by product" in str(ex):
+            return "Refused"
+        if "is already setup" in str(ex):
+            return "IsSetup"
+        if "do not have permission" in str(ex):
+            return "NoPermission"
+        return "Other(EupsException)"
     return "Other(%s)" % name
 
 
